@@ -113,6 +113,7 @@ fn families(tier: Tier) -> &'static Vec<Box<dyn Family>> {
         Tier::Quick => QUICK.get_or_init(|| {
             vec![
                 Box::new(cvx_core::gen_resolve::FCallMain),
+                Box::new(cvx_core::gen_c04::FDottedGlobals),
                 Box::new(cvx_core::gen_closure::FClosureNest),
                 Box::new(cvx_core::gen_closure::FClosure),
                 Box::new(cvx_core::gen_resolve::FResolve),
@@ -131,6 +132,7 @@ fn families(tier: Tier) -> &'static Vec<Box<dyn Family>> {
         Tier::Thorough => THOROUGH.get_or_init(|| {
             vec![
                 Box::new(cvx_core::gen_resolve::FCallMain),
+                Box::new(cvx_core::gen_c04::FDottedGlobals),
                 Box::new(cvx_core::gen_closure::FClosureNest),
                 Box::new(cvx_core::gen_closure::FClosure),
                 Box::new(cvx_core::gen_resolve::FResolve),
